@@ -99,13 +99,14 @@ PLANS['C15'] = dict(
     engine='attrs', level='exploration', jobs=lambda tier: both(tier, (16, 500), (16, 5000)),
     minimums=lambda t: {'name_comparisons': 10000, 'names_defined_by_2plus_ancestors': 1000,
                         'tags_defined_by_2plus_ancestors': 300, 'rebasings_with_warm_memo': 200,
-                        'invariants_from_2plus_ancestors': 100, 'verify_consumer_checks': 30, 'redefined_twins_swapped_in': 30},
+                        'invariants_from_2plus_ancestors': 100, 'verify_consumer_checks': 30, 'redefined_twins_swapped_in': 30, 'rebasings_overlapping_a_query': 100},
     rule='Random interface DAGs in which several ancestors define the same attribute/method names (methods with '
          'different signatures), tags and invariants; every accessor (I[name], get, queryDescriptionFor, in, iter, '
          'names(all), namesAndDescriptions(all), tagged-value queries, validateInvariants with/without list, verifyObject '
          'as a consumer) is compared with first-definition-along-__iro__ computed from the harness\'s own record of '
          'direct definitions; repeated cold, warm, in varying order / for a subset only, after every rebasing and after an ancestor '
-         'was replaced by a re-defined interface of the same name and module (equal, not identical).  Non-trivial: some name is defined with '
+         'was replaced by a re-defined interface of the same name and module (equal, not identical), and after a re-basing that '
+         'happened while an accessor was running (run from the hashing of the name being looked up)   Non-trivial: some name is defined with '
          'different descriptions by >= 2 interfaces of one __iro__; distinct = distinct (bases, names, tags) worlds.',
     assumptions=['__iro__ itself is decided by C02/C03'],
 )
